@@ -59,7 +59,9 @@ def run_c12(sc):
         if res.meta.get("abort"):
             continue
         tested += 1
-        sig = {"engine": sc["engine"], "uses_actors": bool(sc.get("uses_actors")), "uses_history": "'history'" in repr(sc["machine"])}
+        svc_ = (sc.get("logic") or {}).get("services") or {}
+        sig = {"engine": sc["engine"], "uses_actors": bool(sc.get("uses_actors")), "uses_history": "'history'" in repr(sc["machine"]),
+               "invokes_machine": any((v or {}).get("k") == "machine" for v in svc_.values()) and "'invoke'" in repr(sc["machine"])}
         # snapshot text is valid JSON; restore succeeded; re-snapshot equals
         snaps = {}
         bad = False
